@@ -109,7 +109,38 @@ fn leaf_split_point(entries: &[(Vec<u8>, u64)]) -> Result<usize> {
     Ok(best_mid)
 }
 
-/// Bytes one leaf cell takes in a page: slot, key length varint, key, payload.
+/// Which separator of an overfull internal node moves up so that the keys on either side of it fit
+/// one internal page each: the choice that balances the two sides in bytes among those that fit.
+fn internal_split_point(keys: &[Vec<u8>]) -> Result<usize> {
+    let cap = PAGE_SIZE - header_size(PageKind::Internal);
+    let mut total = 0usize;
+    for i in 0..keys.len() {
+        total += cell_space(keys[i].len());
+    }
+
+    // keys.len() = nothing found yet.
+    let mut best_mid = keys.len();
+    let mut best_skew = 0usize;
+    let mut left = 0usize;
+    for mid in 0..keys.len() {
+        let right = total - left - cell_space(keys[mid].len());
+        if left <= cap && right <= cap {
+            let skew = if left > right { left - right } else { right - left };
+            if best_mid == keys.len() || skew < best_skew {
+                best_mid = mid;
+                best_skew = skew;
+            }
+        }
+        left += cell_space(keys[mid].len());
+    }
+    if best_mid == keys.len() {
+        return Err(Error::WalProtocol("index page: separator too large to split"));
+    }
+    Ok(best_mid)
+}
+
+/// Bytes one cell takes in a page: slot, key length varint, key, and the payload (leaf) or child
+/// page id (internal).
 fn cell_space(key_len: usize) -> usize {
     2 + varint_u32_len(key_len as u32) + key_len + 8
 }
@@ -854,7 +885,7 @@ impl BTree {
                 keys.insert(child_pos, sep_key);
                 children.insert(child_pos + 1, right_id);
 
-                let mid = keys.len() / 2;
+                let mid = internal_split_point(&keys)?;
                 let promote = keys[mid].clone();
 
                 let left_keys = keys[..mid].to_vec();
